@@ -299,7 +299,22 @@ func makeItem(tag string, r *vrng, invalid string) *api.Item {
 		}
 		it.Meta.SetTo(m)
 	}
+	if r.coin() {
+		it.Tree.SetTo(makeTree(r, 0))
+	}
+	deep := func(bad api.Tree) api.Tree {
+		// the offending node sits two levels down, behind members that lead back into the reference cycle
+		return api.Tree{Label: api.NewOptString("top"), Kids: []api.Tree{{Label: api.NewOptString("mid"), Kids: []api.Tree{bad}}}}
+	}
 	switch invalid {
+	case "treelabel":
+		it.Tree.SetTo(deep(api.Tree{Label: api.NewOptString("")}))
+	case "treelong":
+		it.Tree.SetTo(deep(api.Tree{Label: api.NewOptString("elevenchars")}))
+	case "twigsize":
+		it.Tree.SetTo(api.Tree{Twigs: []api.Twig{{Size: api.NewOptInt(1), Backs: []api.Tree{{Twigs: []api.Twig{{Size: api.NewOptInt(10)}}}}}}})
+	case "twiglabel":
+		it.Tree.SetTo(api.Tree{Twigs: []api.Twig{{Backs: []api.Tree{{Label: api.NewOptString("")}}}}})
 	case "maxprops":
 		// more members than maxProperties admits, of which only some match the pattern: every member counts
 		it.Meta.SetTo(api.ItemMeta{"m-a-" + tag: 1, "m-b-" + tag: 2, "note": 3, "owner": 4})
@@ -342,6 +357,30 @@ func makeItem(tag string, r *vrng, invalid string) *api.Item {
 		it.Attrs.SetTo(api.ItemAttrs{})
 	}
 	return it
+}
+
+// makeTree makes a valid value of the recursive schema (labels of 1-10 characters, sizes 0-9).
+func makeTree(r *vrng, depth int) api.Tree {
+	var t api.Tree
+	if r.coin() {
+		t.Label.SetTo("l" + strconv.Itoa(r.intn(100000)))
+	}
+	if depth < 3 {
+		for i, n := 0, r.intn(3); i < n; i++ {
+			t.Kids = append(t.Kids, makeTree(r, depth+1))
+		}
+		for i, n := 0, r.intn(2); i < n; i++ {
+			tw := api.Twig{}
+			if r.coin() {
+				tw.Size.SetTo(r.intn(10))
+			}
+			if r.coin() {
+				tw.Backs = append(tw.Backs, makeTree(r, depth+2))
+			}
+			t.Twigs = append(t.Twigs, tw)
+		}
+	}
+	return t
 }
 
 // itemWithDefaults is the model of what the receiving side sees: absent members with a schema default
